@@ -3,6 +3,7 @@ import OnosVerif.Base.Wire
 import OnosVerif.Tree.Model
 import OnosVerif.Tree.Flatten
 import OnosVerif.Tree.Elems
+import OnosVerif.Tree.Spec
 import OnosVerif.Tree.Chunks
 
 namespace OnosVerif.Tree
@@ -92,6 +93,21 @@ def handle (op : String) (args : List String) : Option String :=
     | none => pure "unparseable"
     | some (.ok j) => pure ("ok " ++ encJson j)
     | some (.error e) => pure (encErr e)
+  | "domain", rfc :: pvs => do
+    -- are the preconditions of C18_flatten_build met? (cross-checked against a Go re-implementation)
+    let rfc ← decFlag rfc
+    let pvs ← pvs.mapM decPV
+    let live := prunePathValues pvs false
+    let parsed := live.mapM (fun pv =>
+      match Path.parsePath pv.path with
+      | .ok p => some ((p, pv.val) : Entry)
+      | .error _ => none)
+    match parsed with
+    | none => pure "out"
+    | some S =>
+      let ok := pathsDistinct pvs && consistent rfc S && uniformKeys (S.map (·.1)) &&
+        (S.map Entry.toPV == live)
+      pure (if ok then "in" else "out")
   | "prune2", lt :: pvs | "prune3", lt :: pvs => do
     let lt ← decFlag lt
     let pvs ← pvs.mapM decPV
